@@ -56,6 +56,8 @@ func main() {
 	neutral := flag.String("neutralise", "", "known finding whose trigger is neutralised")
 	samples := flag.Int("samples", 0, "emit a full rendering for the first N ok cases")
 	ballastMB := flag.Int("ballast", 192, "heap ballast in MiB")
+	mark := flag.Bool("mark", false, "emit a start marker before each case (crash attribution)")
+	caseCPU := flag.Duration("casecpu", 0, "CPU time budget per case; exceeded => marker + exit 3")
 	memprof := flag.String("memprofile", "", "write an allocation profile")
 	cpuprof := flag.String("cpuprofile", "", "write a CPU profile")
 	flag.Parse()
@@ -94,8 +96,17 @@ func main() {
 			fmt.Fprintln(os.Stderr, "simrun: unknown property", rf.Property)
 			os.Exit(2)
 		}
+		if *caseCPU > 0 {
+			startWatchdog(*caseCPU, w)
+			caseBegin(rf.Case)
+		}
 		if *replay != "" {
-			r := runTape(p, rf.Property, rf.Seed, rf.Case, rf.Tier, sim.NewReplayTape(rf.Tape), true, *neutral)
+			tp := sim.NewReplayTape(rf.Tape)
+			if rf.Tape == nil {
+				// a case that killed its process: the tape is regenerated from (seed, property, case)
+				tp = sim.NewRecordTape(sim.Mix(rf.Seed, sim.HashString(rf.Property), uint64(rf.Case)))
+			}
+			r := runTape(p, rf.Property, rf.Seed, rf.Case, rf.Tier, tp, true, *neutral)
 			enc.Encode(r)
 			w.Flush()
 			if r.Verdict == "fail" {
@@ -107,6 +118,26 @@ func main() {
 		test := func(tp []uint32) bool {
 			r := runTape(p, rf.Property, rf.Seed, rf.Case, rf.Tier, sim.NewReplayTape(tp), false, "")
 			return r.Verdict == "fail" && r.Class == rf.Class && sameFeat(r.Feat, rf.Feat)
+		}
+		if rf.Class == "process-died" || rf.Class == "hang" {
+			// the violation is the death (or CPU exhaustion) of the process: every candidate runs in a child
+			if rf.Tape == nil {
+				rf.Tape = recordTapeInChild(rf, *caseCPU)
+			}
+			test = func(tp []uint32) bool { return childOutcome(rf, tp, *caseCPU) == rf.Class }
+			best, runs := sim.Shrink(rf.Tape, test, 400, 120*time.Second)
+			rf.Tape = best
+			rf.Shrunk = true
+			rf.Runs = runs
+			b, _ := json.MarshalIndent(rf, "", " ")
+			if *out == "" {
+				*out = path
+			}
+			os.WriteFile(*out, b, 0o644)
+			if !test(best) {
+				os.Exit(3)
+			}
+			return
 		}
 		if !test(rf.Tape) {
 			fmt.Fprintln(os.Stderr, "simrun: the tape does not reproduce the recorded violation class")
@@ -137,12 +168,20 @@ func main() {
 		os.Exit(2)
 	}
 
+	if *caseCPU > 0 {
+		startWatchdog(*caseCPU, w)
+	}
 	start := time.Now()
 	emitted := 0
 	for i := *from; i < *to; i += *step {
 		if *budget > 0 && time.Since(start) > *budget {
 			break
 		}
+		if *mark {
+			fmt.Fprintf(w, "{\"start\":%d}\n", i)
+			w.Flush()
+		}
+		caseBegin(i)
 		tape := sim.NewRecordTape(sim.Mix(*seed, sim.HashString(*prop), uint64(i)))
 		r := runTape(p, *prop, *seed, i, *tier, tape, *trace, *neutral)
 		if r.Verdict == "fail" {
